@@ -1,5 +1,5 @@
 import Indi.Properties.C16
-import Indi.Properties.Decisions
+import Indi.Properties.Dec.Callback
 #print axioms Indi.Cli.C16_events
 #print axioms Indi.Cli.C16_deliveries
 #print axioms Indi.Cli.C16_removed
